@@ -436,7 +436,8 @@ Theorem C06_output_is_serialize_of_strict_doc : forall tbl l o tag attrs ch bs,
   let e := enc_env l o in
   tag_tbl_ok e = true -> frag5_node (NElt tag attrs ch) = true ->
   enc_wbxml tbl l o [NElt tag attrs ch] = EOk bs -> len bs < 4294967296 ->
-  exists st' root,
+  exists body st' root,
+    enc_body tbl l o [NElt tag attrs ch] = EOk (body, st') /\
     abs_node5 tbl e None (NElt tag attrs ch) (start_state e [NElt tag attrs ch]) = Some ([root], st') /\
     bs = Spec.serialize (abs_doc2 e st' root) /\ Spec.strict_doc (abs_doc2 e st' root) = true.
 Proof. exact enc_wbxml_full. Qed.
